@@ -1085,6 +1085,34 @@ package router
 //@   callsite ReleaseMsg: [C20:released-after-the-answer] nH == 1 && arg0 == m
 //@   callsite Add: [C13:slot-returned-after-the-answer] nH == 1 && arg1 == -1
 
+// quicServer.handleStream (one DoQ query): a decodable query gets exactly one answer - the packed response,
+// written once as one length-prefixed frame -, the query and the context are released once each afterwards; an
+// undecodable one gets none.
+//@ func (s *quicServer) handleStream(stream quic.Stream, c quic.Connection, remoteAddr netip.AddrPort, localAddr netip.AddrPort)
+//@   props C03 C13 C20
+//@   requires s != nil && routerReady(s.r) && s.logger != nil && stream != nil && c != nil
+//@   ghost gErr error = nil
+//@   ghost gB pool.Buffer = nil
+//@   ghost nW int = 0
+//@   ghost nH int = 0
+//@   ghost nRel int = 0
+//@   aftercall ReadMsgFromTCP: gErr = ret2
+//@   aftercall mustHaveRespB?: gB = ret0
+//@   oncall Write?: nW = nW + 1
+//@   oncall handleServerReq?: nH = nH + 1
+//@   oncall ReleaseMsg?: nRel = nRel + 1
+//@   modifies *
+//@   ensures [C03:exactly-one-answer-per-decoded-query] nW == (gErr == nil ? 1 : 0) && nH == nW && nRel == nW
+//@   callsite Write?: [C03,C13:one-framed-write] arg0 == stream && arg1 == gB && len(arg1) >= 14 && len(arg1) - 2 <= 65535 && BE16(arg1, 0) == uint16(len(arg1) - 2)
+//@   callsite ReleaseMsg?: [C20:released-after-the-answer] nW == 1
+//@   callsite mustHaveRespB?: [C03:fallback-answer] arg2 == dnsmsg.RCodeRefused && arg3 == true
+
+//@ closure quicServer.handleConn$1
+//@   props C15 C03
+//@   requires s != nil && routerReady(s.r) && s.logger != nil && stream != nil && c != nil
+//@   modifies *
+//@   callsite handleStream: [C15:the-admitted-stream-for-the-charged-client] arg0 == s && arg1 == stream && arg2 == c && arg3 == remoteAddr && arg4 == localAddr
+
 // quicServer.run (accept loop): every accepted connection is charged to its REMOTE address; a refused one is
 // closed and never handled.
 //@ func (s *quicServer) run() (err error)
